@@ -8,8 +8,10 @@ Engine C over every member of FixedString<L> (instantiated for the capacity grid
     is known at mString[ mLength]
  O3 no silently wrapping size_t expression feeds an index, a length or a loop bound - for all
     argument values including npos and values far beyond L
+Overloads taking iterators of the string are analysed for every combination of 'at the end marker' /
+'inside the text' of the iterators handed in ([first, last) a valid range).
 Not decided: 'length equals strlen' when the caller stores NULs (excluded by the statement),
-iterator validity after mutation."""
+iterator validity after mutation, overloads taking std::string iterators."""
 import os
 import re
 
@@ -17,6 +19,11 @@ from ..bounds import Engine, Ptr, Obj, Obligation, UNKNOWN, St, _ev_all, btype
 from ..lin import Lin, lin, ge, le, lt, gt, eq, entails
 from ..facts import VERIF, load_program, children, strip_all_casts, walk, CALL_KINDS
 from ..rules import callee_is, call_args
+
+
+END = (1 << 64) - 1
+ITER = re.compile(r'celma::common::detail::FixedString(Reverse)?Iterator<(const )?char, (const )?celma::common::'
+                  r'FixedString<(\d+)>>$')
 
 
 def capacity(cls):
@@ -82,6 +89,33 @@ def bind_param(eng, st, f, p):
         st.assume(ge(ln, 0), le(ln, S))
         eng.add_nul(st, region, ln)
         st.vars[name] = Obj(name, 'celma::common::FixedString<%d>' % S)
+        return True
+    mi = ITER.match(base)
+    if mi:
+        # an iterator handed in by the caller: valid (end marker or inside the text) and bound to this string
+        # (first2/last2: to another string of the same capacity)
+        L2 = int(mi.group(4))
+        target = 'this' if not name.endswith('2') else 'fs2'
+        st.vars[name] = Obj(name, base)
+        st.fields[(name, 'mpObject')] = Obj(target, 'celma::common::FixedString<%d>' % L2)
+        ln, region = fs_fields(eng, st, target, L2)
+        if target != 'this':
+            st.assume(ge(ln, 0), le(ln, L2))
+            eng.add_nul(st, region, ln)
+        st.ftypes[(name, 'mIndex')] = 'unsigned long'
+        if getattr(eng, 'iter_cases', {}).get(name, 'in') == 'end':
+            st.fields[(name, 'mIndex')] = lin(END)
+        else:
+            ix = eng.named('%s.mIndex' % name, st, 'unsigned long')
+            st.assume(lt(ix, ln))
+            st.fields[(name, 'mIndex')] = ix
+        return True
+    if base.startswith('std::initializer_list<char>'):
+        st.vars[name] = Obj(name, 'std::initializer_list<char>')
+        sz = eng.named('%s.size()' % name, st, 'unsigned long')
+        st.assume(le(sz, 1 << 60))
+        st.fields[(name, 'size')] = sz
+        st.regions[name + '.data'] = sz
         return True
     if base.startswith('std::basic_string<char') and not base.endswith('iterator'):
         st.vars[name] = Obj(name, 'std::string')
@@ -165,12 +199,35 @@ def m_vsnprintf(eng, n, st, func, want):
     return out
 
 
+def m_ilist(eng, n, st, func, want):
+    short = (n.get('callee') or '').split('::')[-1]
+    objn, _ = eng.args_of(n)
+    if objn is None:
+        return None
+    out = []
+    for ov, s1 in eng.ev(objn, st, func):
+        if not isinstance(ov, Obj) or (ov.name, 'size') not in s1.fields:
+            return None
+        sz = s1.fields[(ov.name, 'size')]
+        if short == 'size':
+            out.append((sz, s1))
+        elif short == 'begin':
+            out.append((Ptr(ov.name + '.data', 0), s1))
+        elif short == 'end':
+            out.append((Ptr(ov.name + '.data', sz), s1))
+        else:
+            return None
+    return out
+
+
 def make_engine(prog):
     cfg = {
         'invariants': invariants, 'bind_param': bind_param,
-        'inline': ('celma::common::FixedString<', 'celma::common::detail::FixedString'),
+        'inline': ('celma::common::FixedString<', 'celma::common::detail::FixedString',
+                   'celma::common::detail::operator-'),
         'inline_depth': 4, 'check_loop_bound_wrap': False,
-        'models': {'celma::common::FixedString<*': m_fs_method, 'vsnprintf': m_vsnprintf,
+        'models': {'celma::common::FixedString<*': m_fs_method, 'std::initializer_list<char>::*': m_ilist,
+                   'vsnprintf': m_vsnprintf,
                    'std::vsnprintf': m_vsnprintf},
     }
     return Engine(prog, cfg)
@@ -184,9 +241,8 @@ def members_to_analyse(prog, L):
     fs = [f for f in prog.functions if f.cls == cls and not f.d.get('dtor')]
     res = []
     for f in fs:
-        if any('FixedStringIterator' in p['t'] or 'FixedStringReverseIterator' in p['t'] or
-               'normal_iterator' in p['t'] or 'initializer_list' in p['t'] for p in f.params):
-            continue          # iterator-taking overloads: validity of foreign iterators is outside the claim
+        if any('normal_iterator' in p['t'] for p in f.params):
+            continue          # std::string iterators: not modelled
         if f.short in SKIP:
             continue
         if f.d.get('defaulted'):
@@ -203,9 +259,42 @@ def sig(f):
             'celma::common::', '').replace('unsigned long', 'size_t') for p in f.params), ' const' if f.d.get('const') else '')
 
 
-END = (1 << 64) - 1
-ITER = re.compile(r'celma::common::detail::FixedString(Reverse)?Iterator<(const )?char, (const )?celma::common::'
-                  r'FixedString<(\d+)>>$')
+def iterator_overload(chk, eng, f, L, iters):
+    """members taking iterators of the string: analysed for every combination of 'at the end marker' / 'inside the
+    text' of the iterators handed in; [first, last) and [first2, last2) are valid ranges (first not behind last)"""
+    import itertools
+    n = 0
+    for combo in itertools.product(('in', 'end'), repeat=len(iters)):
+        cases = dict(zip(iters, combo))
+        skip = False
+        for a, b in (('first', 'last'), ('first2', 'last2')):
+            if cases.get(a) == 'end' and cases.get(b) == 'in':
+                skip = True          # not a valid range
+        if skip:
+            continue
+        eng.iter_cases = cases
+        before = len(eng.obligations)
+
+        def setup(e, st, func, cases=cases):
+            for a, b in (('first', 'last'), ('first2', 'last2')):
+                if cases.get(a) == 'in' and cases.get(b) == 'in':
+                    st.assume(le(st.fields[(a, 'mIndex')], st.fields[(b, 'mIndex')]))
+        try:
+            finals = eng.analyse(f, setup)
+        except RecursionError:
+            chk.notes.append('recursion limit in %s' % f.key)
+            continue
+        finally:
+            eng.iter_cases = {}
+        n += 1
+        tag = '%s, L=%d, %s' % (sig(f).replace('detail::FixedStringIterator<const char, const FixedString<%d>>' % L,
+                                               'const_iterator').replace(
+            'detail::FixedStringIterator<char, FixedString<%d>>' % L, 'iterator'), L,
+            ', '.join('%s %s' % (k, 'at end' if v == 'end' else 'inside') for k, v in cases.items()))
+        for o in eng.obligations[before:]:
+            rule = 'O3' if o.kind == 'wrap' else ('O2' if o.kind in ('invariant', 'nul') else 'O1')
+            chk.check(o.held, rule, f.name, '%s [%s]' % (o.what, tag), o.where, o.detail)
+    return n
 
 
 def iterators(chk, prog, eng):
@@ -335,7 +424,8 @@ def run(chk):
         'unsigned arithmetic that can wrap becomes an unconstrained value; the class invariant mLength <= L with a '
         'known NUL at mString[ mLength] is assumed at entry and proved at every exit.' % grid)
     chk.assumptions = ['const char* arguments are NUL-terminated strings; copy( dest, count) may write count bytes',
-                       'iterator-taking overloads are not analysed (validity of caller iterators is outside the claim)',
+                       'iterators handed in are valid for the current text (end marker or inside) and [first, last) is a '
+                       'valid range; overloads taking std::string iterators are not analysed',
                        'vsnprintf writes at most the given size incl. the terminator',
                        'operator[]( idx) is documented as unchecked (undefined behaviour for an invalid index, like '
                        'std::string): decided under its documented precondition idx <= length(); at() is decided '
@@ -352,6 +442,10 @@ def run(chk):
         fs = members_to_analyse(prog, L)
         chk.require(len(fs) >= 100, 'only %d FixedString<%d> members found' % (len(fs), L))
         for f in sorted(fs, key=lambda x: (x.line, x.key)):
+            iters = [p['name'] for p in f.params if ITER.match(btype(p['t'].rstrip('&').strip()))]
+            if iters:
+                total += iterator_overload(chk, eng, f, L, iters)
+                continue
             before = len(eng.obligations)
             try:
                 if f.d.get('ctor'):
